@@ -102,6 +102,16 @@ fn entries(w: &World, roles: &Roles) -> Vec<Entry> {
         let st = &obs.v[v].state;
         let open = st.open;
         let engine = vec![w.engine.to_string()];
+        // "nothing but authorisation can fail": the vAMM's own quote for the same arguments must answer (deep 12-decimal pools
+        // overflow the reserve product, which refuses the engine's swap as well)
+        let in_ok = w
+            .query::<cosmwasm_std::Uint128, _>(&w.vamms[v], &vamm::QueryMsg::InputAmount { direction: vamm::Direction::AddToAmm, amount: u(st.quote_asset_reserve.u128() / 1000 + 1) })
+            .is_ok()
+            && w.query::<cosmwasm_std::Uint128, _>(&w.vamms[v], &vamm::QueryMsg::SpotPrice {}).is_ok();
+        let out_ok = w
+            .query::<cosmwasm_std::Uint128, _>(&w.vamms[v], &vamm::QueryMsg::OutputAmount { direction: vamm::Direction::AddToAmm, amount: u(st.base_asset_reserve.u128() / 1000 + 1) })
+            .is_ok()
+            && w.query::<cosmwasm_std::Uint128, _>(&w.vamms[v], &vamm::QueryMsg::SpotPrice {}).is_ok();
         es.push(Entry {
             name: "vamm.SwapInput",
             target: Target::Vamm(v),
@@ -112,7 +122,7 @@ fn entries(w: &World, roles: &Roles) -> Vec<Entry> {
                 can_go_over_fluctuation: true,
             }),
             allowed: engine.clone(),
-            must_succeed_for_holder: open && obs.v[v].cfg.fluctuation_limit_ratio.is_zero(),
+            must_succeed_for_holder: open && in_ok && obs.v[v].cfg.fluctuation_limit_ratio.is_zero(),
             at_time: None,
         });
         es.push(Entry {
@@ -124,7 +134,7 @@ fn entries(w: &World, roles: &Roles) -> Vec<Entry> {
                 quote_asset_limit: u(0),
             }),
             allowed: engine.clone(),
-            must_succeed_for_holder: open && obs.v[v].cfg.fluctuation_limit_ratio.is_zero(),
+            must_succeed_for_holder: open && out_ok && obs.v[v].cfg.fluctuation_limit_ratio.is_zero(),
             at_time: None,
         });
         // degenerate arguments: an authorisation test must not depend on the size of the request
